@@ -375,8 +375,11 @@ class Event:
         with self._cond:
             if self._flag.acquire(False):
                 self._flag.release()
-            else:
-                self._cond.wait(timeout)
+            elif self._cond.wait(timeout):
+                # woken by set(): the event was set during this call, even
+                # if a clear() got the lock before we did (threading.Event
+                # reports True here as well).
+                return True
 
             if self._flag.acquire(False):
                 self._flag.release()
